@@ -854,6 +854,9 @@ func (b *BaseStore) LoadFromSnapshot(ctx context.Context) error {
 		return fmt.Errorf("unable to update index: %w", err)
 	}
 
+	// the log now holds the snapshot's entries: progress follows the maximum
+	b.recalculateReplicationStatus(maxClock)
+
 	return nil
 }
 
